@@ -4,6 +4,8 @@ import Model.Guard
 import Model.Migration
 import Model.Enfold
 import Model.Backends
+import Model.Audit
+import Model.Serialize
 /-!
 # The Python primitives that the translated rule bodies are made of
 
@@ -42,6 +44,7 @@ inductive V where
                                                -- the cache store of the enfolding cache), whether the wrapped storage was
                                                -- called, how often the listeners were notified, the exception a storage
                                                -- call ended in
+  | decoded (d : Serialize.Decoded)            -- the policy `Policy.__init__` builds from decoded properties
   | pager (ga : Int → Int → Option Store.St)   -- any storage, seen through its `get_all(limit, offset)` (`none`: it raises)
   | alog (audits : List AuditRec) (decisions : List Bool)
                                                -- what the guard writes: the audit records and the decision-log records
@@ -74,6 +77,7 @@ def truth : V → Bool
   | .eworld _ _ _ _ _ => true
   | .alog _ _ => true
   | .pager _ => true
+  | .decoded _ => true
 
 /-- the answer of `satisfied` as the checkers see it: its truthiness, or the exception -/
 def toR (m : M) : R := m.map truth
@@ -541,6 +545,9 @@ def getattrObjM (a name dflt : M) : M :=
 /-- a list literal of string constants (a class attribute such as `_definition_fields`) -/
 def cStrList (xs : List String) : M := .ok (.seq (xs.map fun s => V.py (.str s.toList)))
 
+/-- the empty dictionary literal `{}` -/
+def cEmptyDict : M := .ok (.py (.dict []))
+
 /-- the empty tuple literal `()` -/
 def cEmptyTuple : M := .ok (.seq [])
 
@@ -705,6 +712,72 @@ def callProcM (m : M) (k : V → V → M) : M :=
   match m with
   | .ok (.seq [r, w]) => k r w
   | other => other
+
+/-! ### the audit message classes: `attrgetter`, `str`, `str.join`, `%`-formatting with one directive -/
+
+/-- `attrgetter(name)(policy)` for the two attributes the message classes name policies by -/
+def policyFieldM (a : M) (name : String) : M :=
+  bindM a fun x => match x with
+    | .policy p => (match name with
+        | "uid" => .ok (.py p.uid)
+        | "description" => .ok (.py p.description)
+        | _ => raiseM)
+    | _ => raiseM
+
+/-- `str(x)` (the model's `strOf`: the text of `None`, booleans, integers and strings; other values are outside the
+modelled domain and stand for an unknown text) -/
+def strM (a : M) : M :=
+  bindM a fun x => match x with
+    | .py v => .ok (.py (.str (strOf v)))
+    | _ => raiseM
+
+/-- the strings a list of strings holds -/
+def strsOf : List V → Option (List (List Char))
+  | [] => some []
+  | .py (.str s) :: rest => (strsOf rest).map (s :: ·)
+  | _ :: _ => Option.none
+
+/-- `sep.join(xs)`: `TypeError` unless every item is a string -/
+def joinM (sep xs : M) : M :=
+  bindM sep fun sp => bindM xs fun l => match sp, l with
+    | .py (.str s), .seq items => (match strsOf items with
+        | some ss => .ok (.py (.str (intercalate s ss)))
+        | Option.none => raiseM)
+    | _, _ => raiseM
+
+/-- `'<pre>%s<post>' % x` (`str(x)` in the middle) / `'<pre>%d<post>' % n` (the digits of a natural number) -/
+def fmt1M (pre post : String) (directive : Char) (x : M) : M :=
+  bindM x fun v => match directive, v with
+    | 's', .py w => .ok (.py (.str (pre.toList ++ strOf w ++ post.toList)))
+    | 'd', .py (.int n) => if 0 ≤ n then .ok (.py (.str (pre.toList ++ natDigits n.toNat ++ post.toList))) else raiseM
+    | _, _ => raiseM
+
+/-! ### `Policy.from_json`: the decoded properties as a local dictionary -/
+
+/-- `cls._parse(data)`: the decoded JSON document (a dictionary; anything else makes `from_json` fail) -/
+def parseM (data : M) : M :=
+  bindM data fun d => match d with
+    | .py (.dict kvs) => .ok (.py (.dict kvs))
+    | _ => raiseM
+
+/-- `del d[k]` on a local dictionary, as the new value of `d` (`KeyError` when absent) -/
+def delItemM (d k : M) : M :=
+  bindM d fun x => bindM k fun ky => match x, ky with
+    | .py (.dict kvs), .py (.str cs) =>
+      if (lookup cs kvs).isSome then .ok (.py (.dict (kvs.filter fun kv => kv.1 != cs))) else raiseM
+    | _, _ => raiseM
+
+/-- `d[k] = v` on a local dictionary, as the new value of `d` -/
+def setItemM (d k v : M) : M :=
+  bindM d fun x => bindM k fun ky => bindM v fun w => match x, ky, w with
+    | .py (.dict kvs), .py (.str cs), .py val => .ok (.py (.dict (kvs.filter (fun kv => kv.1 != cs) ++ [(cs, val)])))
+    | _, _, _ => raiseM
+
+/-- `cls(**props)`: the constructor as far as decoding is concerned (`Serialize.construct`) -/
+def ctorKwM (props : M) : M :=
+  bindM props fun p => match p with
+    | .py (.dict kvs) => (match Serialize.construct kvs with | .ok d => .ok (.decoded d) | .error _ => raiseM)
+    | _ => raiseM
 
 /-! ### generators: `while True` with a bound on the rounds, the abstract `get_all` of a storage -/
 
